@@ -824,7 +824,14 @@ func (r *Reader) FetchMessage(ctx context.Context) (Message, error) {
 	for {
 		r.mutex.Lock()
 
-		if !r.closed && r.version == 0 {
+		if r.closed {
+			// Messages may still be queued after Close, they must not be
+			// delivered to calls made on a closed reader.
+			r.mutex.Unlock()
+			return Message{}, io.EOF
+		}
+
+		if r.version == 0 {
 			r.start(r.getTopicPartitionOffset())
 		}
 
